@@ -54,6 +54,10 @@ Outcomes(m, o) ==
          IF e.id = 0 THEN {[st |-> m, res |-> B(FALSE)]}
          ELSE IF e.exp THEN {[st |-> m2, res |-> B(TRUE)], [st |-> m2, res |-> B(FALSE)]}
          ELSE {[st |-> m2, res |-> B(TRUE)]}
+    \* remove without a result (DynamicContainer::remove returns () whether or not the key was there)
+    [] o.op = "remove_u" -> {[st |-> [m EXCEPT ![o.k] = Absent], res |-> Ok]}
+    \* closing and reopening a persistent store changes nothing
+    [] o.op = "reopen" -> {[st |-> m, res |-> Ok]}
     [] o.op = "clear" -> {[st |-> [k \in DOMAIN m |-> Absent], res |-> Ok]}
     \* a clear is recorded as one operation per key with the same interval: a sharded map empties shard by shard
     [] o.op = "clear_k" -> {[st |-> [m EXCEPT ![o.k] = Absent], res |-> Ok]}
